@@ -774,3 +774,179 @@ Proof.
     apply Hsp. intros Heq. pose proof (skipnN_len k (v0 :: rest0) Hk) as Hl. rewrite <- Hr in Hl.
     unfold lenN in Hl at 1. cbn [length] in Hl. lia.
 Qed.
+
+Lemma new_fut_J s f k s' o : Jg true s -> fut_wf k -> new_fut s f k = (s', o) -> Jg true s'.
+Proof.
+  intros Hj Hwf. unfold new_fut. destruct (get (futs s) f); intros H; pinv H; [exact Hj|].
+  apply Jg_set_fut_quiet; auto.
+Qed.
+
+Lemma step_J s o s' x outs :
+  Jg true s -> InvC (proj s) outs -> step s o = (s', x) -> Jg true s'.
+Proof.
+  intros Hj I. pose proof (inv_cur_le_head s outs I) as Hcl. pose proof (inv_min_le_head s outs I) as Hml.
+  destruct o; cbn [step].
+  - (* TrySend *)
+    destruct (s_alive s); cbn [negb]; [|intros H; pinv H; exact Hj].
+    destruct (s_closed s); [intros H; pinv H; apply Jg_add_drops; exact Hj|].
+    destruct (try_send_core v s) as [s1 res] eqn:Et. destruct (try_send_core_J v s s1 res Hj Hcl Et) as [Hj1 _].
+    destruct res; intros H; pinv H; try apply Jg_add_drops; exact Hj1.
+  - (* Send *)
+    destruct (s_alive s); cbn [negb orb]; [|intros H; pinv H; exact Hj].
+    destruct (s_async s); [intros H; pinv H; exact Hj|].
+    destruct (s_closed s); [intros H; pinv H; apply Jg_add_drops; exact Hj|].
+    destruct (try_send_core v s) as [s1 res] eqn:Et. destruct (try_send_core_J v s s1 res Hj Hcl Et) as [Hj1 _].
+    destruct res; intros H; pinv H; try apply Jg_add_drops; assumption.
+  - (* TrySendB *)
+    destruct (s_alive s); cbn [negb]; [|intros H; pinv H; exact Hj].
+    destruct vs as [|v0 vs0]; [intros H; pinv H; exact Hj|].
+    destruct (s_closed s); [intros H; pinv H; apply Jg_add_drops; exact Hj|].
+    destruct (send_some (v0 :: vs0) s) as [[[s1 k] rest']|] eqn:Es; [|intros H; pinv H; apply Jg_add_drops; exact Hj].
+    destruct (send_some_J _ s s1 k rest' Hj Hcl Hml Es) as (Hj1 & _).
+    destruct rest'; intros H; pinv H; try apply Jg_add_drops; exact Hj1.
+  - (* TrySendM *)
+    destruct (s_alive s); cbn [negb]; [|intros H; pinv H; exact Hj].
+    destruct vs as [|v0 vs0]; [intros H; pinv H; exact Hj|].
+    destruct (s_closed s); [intros H; pinv H; apply Jg_add_drops; exact Hj|].
+    destruct (send_some (v0 :: vs0) s) as [[[s1 k] rest']|] eqn:Es; [|intros H; pinv H; apply Jg_add_drops; exact Hj].
+    destruct (send_some_J _ s s1 k rest' Hj Hcl Hml Es) as (Hj1 & _).
+    intros H; pinv H; apply Jg_add_drops; exact Hj1.
+  - (* SendB *)
+    destruct (s_alive s); cbn [negb orb]; [|intros H; pinv H; exact Hj].
+    destruct (s_async s); [intros H; pinv H; exact Hj|].
+    destruct vs as [|v0 vs0]; [intros H; pinv H; exact Hj|].
+    destruct (s_closed s); [intros H; pinv H; apply Jg_add_drops; exact Hj|].
+    destruct (send_some (v0 :: vs0) s) as [[[s1 k] rest']|] eqn:Es; [|intros H; pinv H; apply Jg_add_drops; exact Hj].
+    destruct (send_some_J _ s s1 k rest' Hj Hcl Hml Es) as (Hj1 & _).
+    destruct rest'; intros H; pinv H; assumption.
+  - (* SendM *)
+    destruct (s_alive s); cbn [negb orb]; [|intros H; pinv H; exact Hj].
+    destruct (s_async s); [intros H; pinv H; exact Hj|].
+    destruct vs as [|v0 vs0]; [intros H; pinv H; exact Hj|].
+    destruct (s_closed s); [intros H; pinv H; apply Jg_add_drops; exact Hj|].
+    destruct (send_some (v0 :: vs0) s) as [[[s1 k] rest']|] eqn:Es; [|intros H; pinv H; apply Jg_add_drops; exact Hj].
+    destruct (send_some_J _ s s1 k rest' Hj Hcl Hml Es) as (Hj1 & _).
+    destruct rest'; intros H; pinv H; assumption.
+  - (* SClose *)
+    destruct (s_alive s); cbn [negb]; [|intros H; pinv H; exact Hj].
+    destruct (tx_busy s) eqn:Eb; [intros H; pinv H; exact Hj|].
+    destruct (s_closed s); intros H; pinv H; [exact Hj|].
+    change (Jg true (wake_all (set_sender s true true (s_async s) (s_taint s) true))).
+    apply Jg_sender_close; assumption.
+  - (* SDrop *)
+    destruct (s_alive s); cbn [negb]; [|intros H; pinv H; exact Hj].
+    destruct (tx_busy s) eqn:Eb; [intros H; pinv H; exact Hj|].
+    intros H; pinv H. apply Jg_release. destruct (s_closed s).
+    + apply Jg_set_sender; assumption.
+    + set (s1 := sender_close_internal s).
+      assert (Hj1 : Jg true s1) by (apply Jg_sender_close; assumption).
+      assert (Hb1 : tx_busy s1 = false).
+      { unfold s1, sender_close_internal, wake_all. cbn [set_sender regs]. rewrite tx_busy_wake_list. exact Eb. }
+      apply Jg_set_sender; assumption.
+  - (* SConv *)
+    destruct (s_alive s); cbn [negb]; [|intros H; pinv H; exact Hj].
+    destruct (tx_busy s) eqn:Eb; [intros H; pinv H; exact Hj|].
+    destruct (fixedm s); intros H; pinv H; apply Jg_set_sender; assumption.
+  - (* SObs *)
+    destruct (s_alive s); cbn [negb]; intros H; pinv H; exact Hj.
+  - (* TryRecv *)
+    intros H. apply with_rx_inv in H. destruct H as [[-> ->]|(y & Hg & Hl & H)]; [exact Hj|].
+    destruct (r_closed y) eqn:Ec; [pinv H; exact Hj|].
+    destruct (try_recv_core r y s) as [s1 res] eqn:Et.
+    destruct (recv_J r y s s1 res outs Hj I Hg Ec Et) as [Hj1 _]. pinv H. exact Hj1.
+  - (* Recv *)
+    intros H. apply with_rx_inv in H. destruct H as [[-> ->]|(y & Hg & Hl & H)]; [exact Hj|].
+    destruct (r_async y); [pinv H; exact Hj|].
+    destruct (r_closed y) eqn:Ec; [pinv H; exact Hj|].
+    destruct (try_recv_core r y s) as [s1 res] eqn:Et.
+    destruct (recv_J r y s s1 res outs Hj I Hg Ec Et) as [Hj1 _]. pinv H. exact Hj1.
+  - (* RecvT *)
+    intros H. apply with_rx_inv in H. destruct H as [[-> ->]|(y & Hg & Hl & H)]; [exact Hj|].
+    destruct (r_async y); [pinv H; exact Hj|].
+    destruct (r_closed y) eqn:Ec; [pinv H; exact Hj|].
+    destruct (try_recv_core r y s) as [s1 res] eqn:Et.
+    destruct (recv_J r y s s1 res outs Hj I Hg Ec Et) as [Hj1 _]. pinv H. exact Hj1.
+  - (* TryRecvB *)
+    intros H. apply with_rx_inv in H. destruct H as [[-> ->]|(y & Hg & Hl & H)]; [exact Hj|].
+    destruct (N.eqb n 0); [pinv H; exact Hj|].
+    destruct (r_closed y) eqn:Ec; [pinv H; exact Hj|].
+    destruct (try_recv_batch_core r y n s) as [s1 res] eqn:Et.
+    destruct (recv_batch_J r y n s s1 res Hj Hg Ec Et) as [Hj1 _]. pinv H. exact Hj1.
+  - (* RecvB *)
+    intros H. apply with_rx_inv in H. destruct H as [[-> ->]|(y & Hg & Hl & H)]; [exact Hj|].
+    destruct (r_async y); [pinv H; exact Hj|].
+    destruct (N.eqb n 0); [pinv H; exact Hj|].
+    destruct (r_closed y) eqn:Ec; [pinv H; exact Hj|].
+    destruct (try_recv_batch_core r y n s) as [s1 res] eqn:Et.
+    destruct (recv_batch_J r y n s s1 res Hj Hg Ec Et) as [Hj1 _]. pinv H. exact Hj1.
+  - (* RClose *)
+    intros H. apply with_rx_inv in H. destruct H as [[-> ->]|(y & Hg & Hl & H)]; [exact Hj|].
+    destruct (r_closed y); pinv H; [exact Hj|].
+    apply Jg_wake_producer. apply Jg_set_rx_unreg; assumption.
+  - (* RDrop *)
+    intros H. apply with_rx_inv in H. destruct H as [[-> ->]|(y & Hg & Hl & H)]; [exact Hj|].
+    destruct (rx_busy s r) eqn:Eb; [pinv H; exact Hj|].
+    destruct (r_closed y) eqn:Ec.
+    + rewrite Hg in H. pinv H. apply Jg_release. apply (Jg_set_rx_quiet s r y); auto.
+    + set (s1 := wake_producer (set_rx s r (rx_unreg y))) in *.
+      assert (Hj1 : Jg true s1) by (apply Jg_wake_producer; apply Jg_set_rx_unreg; assumption).
+      assert (Hr1 : rxs s1 = set (rxs s) r (rx_unreg y)).
+      { change (c_rxs (proj s1) = set (rxs s) r (rx_unreg y)). unfold s1. rewrite proj_wake_producer. reflexivity. }
+      assert (Hb1 : rx_busy s1 r = false) by (unfold s1; rewrite rx_busy_wake_producer; exact Eb).
+      rewrite Hr1, get_set_eq in H. pinv H. apply Jg_release.
+      apply (Jg_set_rx_quiet s1 r (rx_unreg y)); auto. rewrite Hr1. apply get_set_eq.
+  - (* RClone *)
+    intros H. apply with_rx_inv in H. destruct H as [[-> ->]|(y & Hg & Hl & H)]; [exact Hj|].
+    destruct (get (rxs s) c) eqn:Egc; [pinv H; exact Hj|].
+    destruct (fixedm s && r_closed y); pinv H; apply Jg_clone; assumption.
+  - (* RConv *)
+    intros H. apply with_rx_inv in H. destruct H as [[-> ->]|(y & Hg & Hl & H)]; [exact Hj|].
+    destruct (rx_busy s r) eqn:Eb; [pinv H; exact Hj|].
+    destruct (fixedm s); pinv H; apply (Jg_set_rx_quiet s r y); auto.
+  - (* RObs *)
+    intros H. apply with_rx_inv in H. destruct H as [[-> ->]|(y & Hg & Hl & H)]; [exact Hj|]. pinv H. exact Hj.
+  - (* MkRecv *)
+    intros H. apply with_rx_inv in H. destruct H as [[-> ->]|(y & Hg & Hl & H)]; [exact Hj|].
+    destruct (r_async y); [eapply new_fut_J; eauto; exact Logic.I | pinv H; exact Hj].
+  - (* MkRecvB *)
+    intros H. apply with_rx_inv in H. destruct H as [[-> ->]|(y & Hg & Hl & H)]; [exact Hj|].
+    destruct (r_async y); [eapply new_fut_J; eauto; exact Logic.I | pinv H; exact Hj].
+  - destruct (s_alive s && s_async s); [intros H; eapply new_fut_J; eauto; exact Logic.I | intros H; pinv H; exact Hj].
+  - destruct (s_alive s && s_async s); [intros H; eapply new_fut_J; eauto; cbn [fut_wf]; lia | intros H; pinv H; exact Hj].
+  - destruct (s_alive s && s_async s); [intros H; eapply new_fut_J; eauto; exact Logic.I | intros H; pinv H; exact Hj].
+  - (* Poll *)
+    destruct (get (futs s) f) as [y|] eqn:Eg; [|intros H; pinv H; exact Hj].
+    destruct (f_live y) eqn:El; [intros H; eapply poll_J; eauto | intros H; pinv H; exact Hj].
+  - (* DropF *)
+    destruct (get (futs s) f) as [y|]; [|intros H; pinv H; exact Hj].
+    destruct (f_live y); intros H; pinv H; [apply Jg_add_drops, Jg_kill|]; exact Hj.
+  - (* PollNext *)
+    intros H. apply with_rx_inv in H. destruct H as [[-> ->]|(y & Hg & Hl & H)]; [exact Hj|].
+    destruct (r_async y); cbn [negb] in H; [|pinv H; exact Hj].
+    destruct (rx_busy s r); [pinv H; exact Hj|].
+    destruct (r_closed y) eqn:Ec; [pinv H; exact Hj|].
+    destruct (try_recv_core r y s) as [s1 res] eqn:Et.
+    destruct (recv_J r y s s1 res outs Hj I Hg Ec Et) as [Hj1 _].
+    destruct res; pinv H; try exact Hj1. apply Jg_register. exact Hj1.
+  - (* Snap *)
+    intros H; pinv H; exact Hj.
+Qed.
+
+(* ------------------------------------------------------------------ all histories *)
+Lemma J_init fx c a : Jg true (init fx c a).
+Proof. intros f x Hg. cbn [init futs get] in Hg. discriminate. Qed.
+
+Lemma J_end_of ops : forall s outs, Jg true s -> InvC (proj s) outs -> Jg true (end_of s ops).
+Proof.
+  induction ops as [|o t IH]; intros s outs Hj I; [exact Hj|]. cbn [end_of].
+  destruct (step s o) as [s1 x] eqn:Es. cbn [fst]. apply (IH s1 (outs ++ [x])).
+  - eapply step_J; eauto.
+  - eapply inv_step; [exact I|]. apply step_shape with (op := o). exact Es.
+Qed.
+
+Theorem spmc_wake_invariant fx c a ops s outs :
+  0 < c -> run fx c a ops = (s, outs) -> J s.
+Proof.
+  intros Hc Hr. rewrite run_outs in Hr. inversion Hr; subst. apply J_Jg.
+  apply (J_end_of ops (init fx c a) []); [apply J_init|apply inv_init; exact Hc].
+Qed.
